@@ -41,6 +41,85 @@ pub fn workers() -> usize {
         .unwrap_or_else(|| std::thread::available_parallelism().map(|n| n.get()).unwrap_or(4).min(16))
 }
 
+/// True in the binary built with `--profile checked` (overflow checks and debug assertions on).
+pub fn is_checked_build() -> bool {
+    cfg!(debug_assertions)
+}
+
+/// The sibling binary of the other build profile (target/<profile>/simctl), if it was built.
+pub fn sibling_binary(profile: &str) -> Option<std::path::PathBuf> {
+    let exe = std::env::current_exe().ok()?;
+    let p = exe.parent()?.parent()?.join(profile).join("simctl");
+    p.exists().then_some(p)
+}
+
+/// Budget scaling for the second build's phase: VERIF_RUN_SCALE_PCT (default 100).
+pub fn scaled(runs: u64) -> u64 {
+    let pct = std::env::var("VERIF_RUN_SCALE_PCT").ok().and_then(|s| s.parse::<u64>().ok()).unwrap_or(100);
+    (runs * pct / 100).max(if runs == 0 { 0 } else { 1 })
+}
+
+/// Build knob as a searched dimension (C13, C18): the same check is run a second time by the
+/// binary built with overflow checks and debug assertions on - the build a user gets from a plain
+/// `cargo build` / `cargo test` - on a reduced budget. Arithmetic that wraps silently in a release
+/// build panics there. Violations the child confirmed (with its own binary) are taken over with
+/// `"build": "checked"`; `simctl replay` hands such a file to the checked binary.
+fn checked_phase(report: &mut Report) {
+    if is_checked_build() || std::env::var("VERIF_PHASE").as_deref() == Ok("checked") || std::env::var("VERIF_NO_CHECKED").is_ok() {
+        return;
+    }
+    if !matches!(report.property.as_str(), "C13" | "C18") {
+        return;
+    }
+    let Some(bin) = sibling_binary("checked") else {
+        report.coverage["overflow_checked_build"] = json!({"status": "not run: target/checked/simctl was not built"});
+        return;
+    };
+    let tmp = std::env::temp_dir().join(format!("verif-checked-{}-{}", report.property, std::process::id()));
+    let _ = std::fs::remove_dir_all(&tmp);
+    let _ = std::fs::create_dir_all(&tmp);
+    let t0 = Instant::now();
+    let out = std::process::Command::new(&bin)
+        .args(["check", &report.property, &report.tier])
+        .env("VERIF_PHASE", "checked")
+        .env("VERIF_OUT", &tmp)
+        .env("VERIF_DIR", verif_dir())
+        .env("VERIF_RUN_SCALE_PCT", "25")
+        .output();
+    let mut phase = json!({"binary": bin.to_string_lossy(), "build": "profile checked: release + overflow-checks + debug-assertions", "budget": "25% of the tier's runs"});
+    match out {
+        Err(e) => report.harness_errors.push(json!({"phase": "checked-build", "error": format!("spawn: {e}")})),
+        Ok(o) => {
+            let code = o.status.code();
+            let ev: Value = std::fs::read_to_string(tmp.join("evidence").join(format!("{}.json", report.property)))
+                .ok()
+                .and_then(|t| serde_json::from_str(&t).ok())
+                .unwrap_or(json!(null));
+            phase["exit"] = json!(code);
+            phase["evaluations"] = ev["coverage"]["evaluations"].clone();
+            phase["violations"] = ev["violations"].clone();
+            phase["wall_s"] = json!(t0.elapsed().as_secs_f64());
+            if let Ok(rd) = std::fs::read_dir(tmp.join("replays")) {
+                let mut files: Vec<_> = rd.flatten().map(|e| e.path()).collect();
+                files.sort();
+                for f in files {
+                    if let Some(mut v) = std::fs::read_to_string(&f).ok().and_then(|t| serde_json::from_str::<Value>(&t).ok()) {
+                        v["build"] = json!("checked");
+                        report.violations.push(v);
+                    }
+                }
+            }
+            if code != Some(0) && code != Some(1) {
+                let stdout = String::from_utf8_lossy(&o.stdout);
+                let stderr = String::from_utf8_lossy(&o.stderr);
+                report.harness_errors.push(json!({"phase": "checked-build", "exit": code, "stdout_tail": stdout.lines().rev().take(4).collect::<Vec<_>>(), "stderr_tail": stderr.lines().rev().take(6).collect::<Vec<_>>()}));
+            }
+        }
+    }
+    let _ = std::fs::remove_dir_all(&tmp);
+    report.coverage["overflow_checked_build"] = phase;
+}
+
 pub struct Report {
     pub property: String,
     pub tier: String,
@@ -73,7 +152,8 @@ fn known_match<'a>(known: &'a [Value], property: &str, v: &Value) -> Option<&'a 
 }
 
 /// Writes evidence, replay files; prints the protocol lines; returns the process exit code.
-pub fn finish(report: Report) -> i32 {
+pub fn finish(mut report: Report) -> i32 {
+    checked_phase(&mut report);
     let dir = out_dir();
     let _ = std::fs::create_dir_all(format!("{dir}/evidence"));
     let _ = std::fs::create_dir_all(format!("{dir}/replays"));
@@ -669,6 +749,20 @@ pub fn replay(path: &str) -> i32 {
         }
     };
     let v: Value = serde_json::from_str(&text).expect("replay json");
+    if v["build"].as_str() == Some("checked") && !is_checked_build() {
+        // found by the overflow-checked build: replayed by that binary
+        let Some(bin) = sibling_binary("checked") else {
+            eprintln!("replay error: {path} needs target/checked/simctl (cargo build --profile checked)");
+            return 2;
+        };
+        return match std::process::Command::new(bin).args(["replay", path]).status() {
+            Ok(st) => st.code().unwrap_or(2),
+            Err(e) => {
+                eprintln!("replay error: {e}");
+                2
+            }
+        };
+    }
     let sim = v["sim"].as_str().unwrap_or("hashsim");
     let r = match sim {
         "hashsim" => confirm_hashsim(&v),
@@ -713,6 +807,7 @@ pub fn check_cellsim(property: &str, tier: &str) -> i32 {
         ("C16", false) => 120_000,
         (_, _) => 2_400_000,
     };
+    let runs = scaled(runs);
     let mut jobs = Vec::new();
     let nw = (boots * shards) as u64;
     for b in 0..boots {
@@ -1010,7 +1105,7 @@ pub fn check_ossim(property: &str, tier: &str) -> i32 {
     let par = workers();
     let boots = if thorough { 4 } else { 2 };
     let shards = (par / boots).max(1);
-    let runs: u64 = if property == "C03" { 0 } else if thorough { 1_200_000 } else { 80_000 };
+    let runs: u64 = scaled(if property == "C03" { 0 } else if thorough { 1_200_000 } else { 80_000 });
     let validate: u64 = if property == "C03" { 0 } else if thorough { 20_000 } else { 150 };
     let nw = (boots * shards) as u64;
     let mut jobs = Vec::new();
